@@ -378,7 +378,7 @@ func TestVerifC07(t *testing.T) {
 			{name: "r-period", conf: map[string]interface{}{"allowed_policies": "p1", "token_period": "20m"}, allowed: []string{"p1"}, period: 1200},
 			{name: "r-explmax", conf: map[string]interface{}{"allowed_policies": "p1", "token_explicit_max_ttl": "15m"}, allowed: []string{"p1"}, explMax: 900},
 			{name: "r-empty", conf: map[string]interface{}{}},
-			{name: "r-batch", conf: map[string]interface{}{"allowed_policies": "p1", "token_type": "batch", "orphan": true}, allowed: []string{"p1"}, orphan: true},
+			{name: "r-batch", conf: map[string]interface{}{"allowed_policies": "p1", "token_type": "batch", "orphan": true, "renewable": false}, allowed: []string{"p1"}, orphan: true},
 		}
 		if !vout.Thorough() {
 			roles = roles[:6]
